@@ -214,6 +214,29 @@ def check(sd):
                 fails.append('after merge #%d (%s at %s) the %s was changed: %r -> %r' % (step, kind, p, name, snap, cur))
         if fails:
             break
+    if fails:
+        return fails[:3]
+    # ---- using a composite does not change it: initial_state(config) / generate_store(config) with an initial-state
+    #      override that reaches into the composite's own nested state, then the composite is used again
+    try:
+        before = struct(B)
+        plain = copy.deepcopy(B.initial_state())
+        p = paths_used[0] if paths_used else ()
+        override = at(p, {'pool': {'m': 12345, 'brand_new': 1}, 'elsewhere': {'q': 2}})
+        how = rng.choice(['initial_state', 'generate_store'])
+        if how == 'initial_state':
+            B.initial_state({'initial_state': copy.deepcopy(override)})
+        else:
+            B.generate_store({'initial_state': copy.deepcopy(override)})
+        if struct(B) != before:
+            fails.append('%s(config with an initial_state override) changed the composite itself: state %r -> %r'
+                         % (how, before['state'], struct(B)['state']))
+        again = B.initial_state()
+        if json.dumps(again, sort_keys=True, default=repr) != json.dumps(plain, sort_keys=True, default=repr):
+            fails.append('after one %s(config) the composite gives a different initial_state(): %r, before %r'
+                         % (how, again, plain))
+    except Exception as e:
+        fails.append('re-using the merged composite raised %s: %s' % (type(e).__name__, str(e)[:160]))
     return fails[:3]
 
 
